@@ -174,7 +174,20 @@ def run_selftest_for(prop: str, base_ctx: Ctx | None = None) -> int:
         rows.append({"id": v["id"], "expect": v["expect"], "verdict": verdict, "what": v.get("what", ""), "detail": detail[:300]})
         if verdict in ("survived", "fired", "broken-variant"):
             bad.append(rows[-1])
+    # the loop normalisations of the front end are themselves tested: original and rewritten random programs must behave alike (sa/threadcheck.py)
+    from .threadcheck import check as _thread_check
+
+    tc = _thread_check(400, 20260101 + sum(map(ord, prop)))
+    if tc["mismatches"]:
+        bad.append({"id": "loop-normalisation-differential", "expect": "identity", "verdict": "differs", "what": "", "detail": str(tc["first"][1])[:300]})
+    from .threadcheck import check_counter as _counter_check
+
+    cc = _counter_check(300, 20260102 + sum(map(ord, prop)))
+    if cc["mismatches"]:
+        bad.append({"id": "counted-loop-rewrite-differential", "expect": "identity", "verdict": "differs", "what": "", "detail": str(cc["first"][1])[:300]})
+    tc = dict(tc, counted_loop_programs=cc["programs"], counted_loop_rewritten=cc["rewritten"], counted_loop_mismatches=cc["mismatches"])
     summary = {
+        "loop_normalisation_differential": {k: tc[k] for k in ("programs", "rewritten", "mismatches", "counted_loop_programs", "counted_loop_rewritten", "counted_loop_mismatches")},
         "must_fire": {"total": sum(1 for v in variants if v["expect"] == "fire"), "killed": sum(1 for r in rows if r["verdict"] == "killed"),
                       "skipped": sum(1 for r in rows if r["verdict"] == "skipped" and r["expect"] == "fire")},
         "benign": {"total": sum(1 for v in variants if v["expect"] == "silent"), "silent": sum(1 for r in rows if r["verdict"] == "silent"),
@@ -212,5 +225,19 @@ def main() -> int:
             print(json.dumps(r["results"], indent=1)[:3000])
         if flag == "BAD":
             rc = 2
+    from .threadcheck import check as _thread_check
+
+    tc = _thread_check(1500, 20260101)
+    print(f"{'ok ' if not tc['mismatches'] else 'BAD'} loop-normalisation differential: {tc['programs']} programs, {tc['rewritten']} rewritten, {tc['mismatches']} mismatch(es)")
+    if tc["mismatches"]:
+        rc = 2
+        print(str(tc["first"][1])[:400])
+    from .threadcheck import check_counter as _counter_check
+
+    cc = _counter_check(1500, 20260102)
+    print(f"{'ok ' if not cc['mismatches'] else 'BAD'} counted-loop rewrite differential: {cc['programs']} programs, {cc['rewritten']} rewritten, {cc['mismatches']} mismatch(es)")
+    if cc["mismatches"]:
+        rc = 2
+        print(str(cc["first"][1])[:400])
     print(f"{len(variants)} variants in {time.time() - t0:.1f}s")
     return rc
